@@ -433,6 +433,9 @@ func TestC13(t *testing.T) {
 	ctx := context.Background()
 	orig, _ := http.NewRequest("POST", "http://x/olla/anthropic/v1/messages", nil)
 	n := rep.Pick(6000, 200000)
+	if rep.Mode() == "race" {
+		n = rep.Pick(1500, 20000)
+	}
 	// The cases are split over 8 workers that share the one translator (as concurrent
 	// requests do in production: its buffer pools and state must not leak between
 	// streams); each worker's case list is determined by the seed.
@@ -489,6 +492,9 @@ func TestC13(t *testing.T) {
 	mal := []string{"data: {\"choices\":[{\"delta\":{\"content\":\"trunc", "data: {\"choices\":\"wrong\"}", "data: {\"choices\":[{\"delta\":{\"tool_calls\":\"x\"}}]}", "data: {\"choices\":[{\"delta\":{\"tool_calls\":[{\"index\":\"a\",\"function\":7}]}}]}",
 		"data: \x00\x01\x02\xff", "event: weird", "data: {\"choices\":[{\"delta\":{\"tool_calls\":[{\"index\":5,\"function\":{\"arguments\":\"orphan\"}}]}}]}", "data: null", "data: []", "data: " + strings.Repeat("x", 70000)}
 	nm := rep.Pick(1500, 40000)
+	if rep.Mode() == "race" {
+		nm = rep.Pick(400, 4000)
+	}
 	for i := 0; i < nm; i++ {
 		c := genCompletion(rng)
 		sse := renderSSE(rng, c)
@@ -532,7 +538,7 @@ func TestC13(t *testing.T) {
 	}
 	endToEnd(run, rng, tr)
 	run.Require("stream_cases", int64(n))
-	run.Require("e2e_cases", int64(rep.Pick(60, 800)))
+	run.Require("e2e_cases", int64(rep.Pick(60, 800)/map[bool]int{true: 3, false: 1}[rep.Mode() == "race"]))
 	run.Finish(t)
 }
 
@@ -547,6 +553,9 @@ func endToEnd(run *rep.Run, rng *rand.Rand, tr *anthropic.Translator) {
 		}
 		hc := world.NewClient(false, 20*time.Second)
 		n := rep.Pick(40, 500)
+		if rep.Mode() == "race" {
+			n = rep.Pick(15, 100)
+		}
 		for i := 0; i < n; i++ {
 			c := genCompletion(rng)
 			sse := renderSSE(rng, c)
